@@ -65,7 +65,8 @@ def record_text(toks, text, route='parse', want='c01', lenv=ROLE_ENV):
     """Run the real code on rule text ``text`` (a rendering of ``toks``)."""
     _parser, policy, cfg = _mods()
     leaves = lang.leaves_of(toks)
-    case = {'kind': 'text', 'want': want, 'toks': toks, 'raised': 0, 'blank': 1 if not toks else 0,
+    case = {'kind': 'text', 'want': want, 'toks': toks, 'raised': 0, 'blank': 1 if (not toks and text != '') else 0,
+            'empty': 1 if text == '' else 0,
             'table': [], 'pr': [], 'pr2': [], 'table2': [], '_text': text, '_route': route}
     try:
         table, chk = _table(text, leaves, route, lenv)
@@ -157,6 +158,12 @@ def list_value(outer, rng, lenv=ROLE_ENV):
         else:
             val.append(texts)
     return val
+
+
+def tuplify(val, rng):
+    """the same list rule given by a Python caller with tuples (not expressible in JSON/YAML)"""
+    out = [tuple(x) if isinstance(x, list) and rng.random() < 0.7 else x for x in val]
+    return tuple(out) if rng.random() < 0.4 else out
 
 
 ODD_CREDS = [({}, {}), ({'a': 'b'}, {'roles': []}), ({'x': 1}, {'roles': ['r1', 'admin'], 'x': 'y', 'is_admin': True}),
